@@ -63,6 +63,14 @@ func merge(dstDir string, names []string) (string, error) {
 		}
 	}
 
+	// A ".meta" file already present at dstName belongs to an earlier compound
+	// shard of that name (for example one whose removal was interrupted between
+	// the shard and its ".meta" file). The new compound shard must not be read
+	// through that stale metadata, tombstones included.
+	if err := os.Remove(dstName + ".meta"); err != nil && !os.IsNotExist(err) {
+		return "", fmt.Errorf("zoekt-merge-index: failed to remove stale metadata of compound shard: %w", err)
+	}
+
 	// We only rename the compound shard if all simple shards could be deleted in the
 	// previous step. This guarantees we won't have duplicate indexes.
 	if err := os.Rename(tmpName, dstName); err != nil {
